@@ -67,12 +67,24 @@ static std::string rx(const Args& a)
     Capture cap;
     if (app && !codec2) codec2 = ::codec2_create(CODEC2_MODE_3200);
     if (app) display_lsf = true;
+    if (a.at(9) == 2) app = false;
     std::unique_ptr<M17Demodulator<float>> demod(app ? new M17Demodulator<float>(handle_frame) : new M17Demodulator<float>(cb));
     if (app) demod->diagnostics(diagnostic_callback<float>);
     long long maxsi = 0, maxfi = 0, n = 0, dcdn = 0, dcdfirst = -1;
+    bool tracing = a.at(9) == 2;
+    std::string trace;
+    if (tracing) { trace.reserve(size_t(40) * (s.size() + size_t(leadn) + 4000)); app = false; }
     auto feed = [&](double x) {
         (*demod)(float(x));
         ++n;
+        if (tracing && n >= 1920) {
+            auto& d = *demod;
+            char buf[160];
+            snprintf(buf, sizeof buf, " %d %d %d %d %d %d %d %d %d %zu %zu %d %zu", int(d.demodState), d.sync_count, d.missing_sync_count, int(d.sample_index),
+                     int(d.sync_sample_index), int(d.correlator.index()), int(d.dcd_), int(d.need_clock_reset_), int(d.need_clock_update_), d.count_,
+                     d.framer.index_, int(d.sync_word_type), d.viterbi_cost);
+            trace += buf;
+        }
         if (demod->dcd_) { ++dcdn; if (dcdfirst < 0) dcdfirst = n; }
         if (demod->sample_index > maxsi) maxsi = demod->sample_index;
         if ((long long)demod->framer.index_ > maxfi) maxfi = (long long)demod->framer.index_;
@@ -91,6 +103,7 @@ static std::string rx(const Args& a)
     }
     for (int i = 0; i < 4000; ++i) feed(sigma > 0 ? sigma * nd(g) : 0.0);       // trailing silence/noise
     std::string head = join({maxsi, maxfi, (long long)demod->dcd_, (long long)int(demod->demodState), n, dcdn, dcdfirst});
+    if (tracing) return "demod_trace" + trace;
     if (!app) return head + " |" + frames;
     std::string err = cap.err.str(); std::string e2;
     for (char c : err) { if (c == '\n') e2 += "\\n"; else if (c == '\r') continue; else e2 += c; }
